@@ -78,6 +78,23 @@ def C06(g, tier):
         if g.r.random() < 0.5:
             tab[g.r.choice([len(tab) - 1, len(tab) - 2, g.r.randrange(len(tab))])] = t3 + g.nat(2)
         yield sx(["ff_new", tab, t3]), True
+    # equality: same table / different codomain, same codomain / table differing in one (late) entry
+    for _ in range(N(tier, 80, 800)):
+        f = g.ff()
+        k = g.r.random()
+        if k < 0.3:
+            h = [list(f[0]), f[1]]
+        elif k < 0.5:
+            h = [list(f[0]), f[1] + g.r.randint(1, 2)]
+        elif k < 0.8 and f[0]:
+            t2 = list(f[0])
+            i2 = g.r.choice([len(t2) - 1, g.r.randrange(len(t2))])
+            t2[i2] = (t2[i2] + 1) % max(f[1], 1)
+            h = [t2, f[1]]
+        else:
+            h = g.ff()
+        yield sx(["ff_eq", g.r.choice(BACKENDS), f, h]), True
+        yield sx(["semi_eq", g.r.choice(BACKENDS), f[0], h[0]]), True
     # random stream
     for _ in range(N(tier, 400, 4000)):
         f = g.ff()
@@ -322,6 +339,23 @@ def C08(g, tier):
         cf = [c[0], [c[1], 2]]
         yield sx(["icf_iter", cf]), nt
         yield sx(["icf_len", cf]), False
+    import copy
+    for _ in range(N(tier, 60, 600)):
+        c = g.icf()
+        d = copy.deepcopy(c)
+        k = g.r.random()
+        if k < 0.3 and d[1][0]:
+            d[1][0][-1] = (d[1][0][-1] + 1) % d[1][1]
+        elif k < 0.45:
+            d[1][1] += 1
+        elif k < 0.6 and len(d[0][0]) >= 2:
+            # same concatenation, different segmentation
+            i2 = g.r.randrange(len(d[0][0]) - 1)
+            if d[0][0][i2] > 0:
+                d[0][0][i2] -= 1
+                d[0][0][i2 + 1] += 1
+        yield sx(["icf_eq", g.r.choice(BACKENDS), c, d]), True
+        yield sx(["ics_eq", g.r.choice(BACKENDS), [c[0], c[1][0]], [d[0], d[1][0]]]), True
     for _ in range(N(tier, 400, 4000)):
         c = g.icf()
         d = g.icf(tgt=c[1][1]) if g.r.random() < 0.8 else g.icf()
